@@ -75,22 +75,36 @@ def main():
     ok = meta["ran"]["demo_on_clean_tree"]["exit"] == 0 and meta["ran"]["demo_with_change"]["exit"] != 0 and (
         skip_suite or meta["ran"]["baseline_with_change"]["stable_tests_missing"] == 0)
     print("confirmed:", ok, json.dumps(meta["ran"])[:600])
-    # run the checks against /repo with the change applied
-    a = sh(f"git -C /repo apply {diff}")
+    # run the checks with the change applied.  Default: apply to /repo and always restore it.
+    # With --via-worktree the change stays in the scratch worktree and the checks import tensora from
+    # there (PYTHONPATH precedes /venv's editable install), so /repo is never touched.
+    via_wt = "--via-worktree" in sys.argv
+    if via_wt:
+        a = sh(f"git apply {diff}", cwd=wt)
+        cenv = dict(os.environ)
+        cenv["PYTHONPATH"] = f"{wt}/src"
+    else:
+        a = sh(f"git -C /repo apply {diff}")
+        cenv = None
     if a.returncode != 0:
-        print("diff does not apply to /repo:", a.stderr)
+        print("diff does not apply:", a.stderr)
         sys.exit(2)
     try:
         for c in checks:
             t = time.time()
-            r = sh(f"/venv/bin/python -m verif {c} --tier quick", cwd="/verif", timeout=3600)
+            r = sh(f"/venv/bin/python -m verif {c} --tier quick", cwd="/verif", env=cenv, timeout=3600)
             cls = [l.strip()[:200] for l in r.stdout.splitlines() if l.strip().startswith("class=")]
             meta["checks"][c] = {"exit": r.returncode, "wall_s": round(time.time() - t), "classes": cls[:4]}
             print(f"  {c}: exit={r.returncode} {time.time() - t:.0f}s {cls[:2]}")
             if r.returncode not in (0, 1, 2):
                 print("   stderr:", r.stderr[-300:])
+            if r.returncode == 2:
+                print("   ", [l[:200] for l in r.stdout.splitlines() if l.startswith("INCONCLUSIVE")][:3])
     finally:
-        sh("git -C /repo checkout -- .")
+        if via_wt:
+            sh("git checkout -- .", cwd=wt)
+        else:
+            sh("git -C /repo checkout -- .")
     meta["confirmed"] = ok
     meta["caught_by"] = [c for c, v in meta["checks"].items() if v["exit"] == 1]
     if ok:
